@@ -18,7 +18,7 @@ I = z3.Int
 
 # (file name, explicit audio_format, expected container)
 NAMES = [("out.wav", None, "wav"), ("out.raw", None, "raw"), ("OUT.WAV", None, "wav"), ("noext", None, "raw"),
-         ("x.bin", "wave", "wav"), ("x.wav", "raw", "raw"), ("y.dat", "WAV", "wav"), ("y.RAW", None, "raw")]
+         ("out.v2/noext", None, "raw"), ("out.v2/take.wav", None, "wav"), ("x.bin", "wave", "wav"), ("x.wav", "raw", "raw"), ("y.dat", "WAV", "wav"), ("y.RAW", None, "raw")]
 
 
 def roundtrip_harness(L, sw, ch, sr, name, fmt, container, lazy, via):
@@ -49,7 +49,7 @@ def roundtrip_harness(L, sw, ch, sr, name, fmt, container, lazy, via):
                 kw = dict(sr=sr, sw=sw, ch=ch)
             if fmt is not None:
                 kw["audio_format"] = fmt
-            elif container == "raw" and "." not in name:
+            elif container == "raw" and "." not in os.path.basename(name):
                 kw["audio_format"] = "raw"
             if lazy:
                 kw["large_file"] = True
@@ -108,6 +108,17 @@ def name_harness(L):
                 conds["exists_ok=False refuses when the formatted name exists"] = False
             except FileExistsError:
                 conds["nothing written on refusal (template)"] = len(fs.log) == log_before
+            try:
+                # a region without start/end still fills {duration}
+                plain = core.AudioRegion(data, 10, 2, 1)
+                Placeholder.registry.clear()
+                ret2 = plain.save("d_{duration:.3f}.wav")
+                t2 = [t for t in Placeholder.registry.values() if t.spec == ".3f"]
+                conds["{duration} filled for a region without start"] = len(t2) == 1 and ret2 == "d_%s.wav" % str.__str__(t2[0]) and ret2 in fs.files
+                if len(t2) == 1:
+                    conds["{duration} value (region without start)"] = SymRat.of(t2[0].value).eqz(SymRat(D.nsamples, 10))
+            except Exception:
+                conds["{duration} filled for a region without start"] = False
             try:
                 reg.save("fresh.wav", exists_ok=False)
                 conds["exists_ok=False writes a new file"] = "fresh.wav" in fs.files
@@ -205,6 +216,7 @@ def replay_fn(c):
     try:
         if c["kind"] == "roundtrip":
             name = os.path.join(tmp, c["name"])
+            os.makedirs(os.path.dirname(name), exist_ok=True)
             reg = ak.AudioRegion(data, sr, sw, ch)
             desc = "%d-sample region (sw=%d ch=%d sr=%d) saved as %r (audio_format=%r) via %s, loaded %s" % (
                 n, sw, ch, sr, c["name"], c["fmt"], c["via"], "lazily" if c["lazy"] else "eagerly")
@@ -221,7 +233,7 @@ def replay_fn(c):
             kw = dict(sr=sr, sw=sw, ch=ch) if c["container"] == "raw" else {}
             if c["fmt"] is not None:
                 kw["audio_format"] = c["fmt"]
-            elif c["container"] == "raw" and "." not in c["name"]:
+            elif c["container"] == "raw" and "." not in os.path.basename(c["name"]):
                 kw["audio_format"] = "raw"
             if c["lazy"]:
                 kw["large_file"] = True
@@ -251,6 +263,10 @@ def replay_fn(c):
                 return [("C18: exists_ok=False overwrites when the name comes from a template", ret)]
             except FileExistsError:
                 pass
+            plain = ak.AudioRegion(data, 10, 2, 1)
+            ret2 = plain.save(os.path.join(tmp, "d_{duration:.3f}.wav"))
+            if os.path.basename(ret2) != "d_%.3f.wav" % (n / 10) or not os.path.exists(ret2):
+                return [("C18: {duration} not filled in the file name of a region without start", ret2)]
             try:
                 ak.AudioRegion(b"\1\2", 10, 2, 1).save(Path(ret), exists_ok=False)
                 return [("C18: exists_ok=False overwrites an existing Path", ret)]
